@@ -36,7 +36,8 @@ def gen_partials(rng, malformed=False):
         cubic = rng.random() < 0.6
         for t in range(L):
             if cubic:
-                rows.append([c[0] + c[1] * t + c[2] * t * t + c[3] * t ** 3 for c in coef])
+                # binomial basis: integer samples, but derivatives with halves and thirds
+                rows.append([c[0] + c[1] * t + c[2] * (t * (t - 1) // 2) + c[3] * (t * (t - 1) * (t - 2) // 6) for c in coef])
             else:
                 rows.append([rng.randint(-40, 40) for _ in range(D)])
             mask.append(False)
@@ -90,6 +91,7 @@ def impl_main(payload):
             return np.zeros((x.shape[0], 1)), self.df
 
     results = []
+    shared = {}
     for c in payload["cases"]:
         viol = []
         if c["kind"] == 0:
@@ -164,6 +166,14 @@ def impl_main(payload):
             v = float(fit(ind))
             if fit.eval_count != c0 + 1:
                 viol.append("one fitness call changed the evaluation count by %d" % (fit.eval_count - c0))
+            # a long-lived fitness object that is handed new training data (as the fitness-predictor island and the subset
+            # evaluation do) must behave like a fresh one
+            if (n, D) not in shared:
+                shared[(n, D)] = ImplicitRegression(ImplicitTrainingData(np.zeros((n, D)), 3.0 + np.arange(n * D, dtype=float).reshape(n, D)))
+            shared[(n, D)].training_data = td
+            v3 = float(shared[(n, D)](ind))
+            if not (v3 == v or (math.isnan(v3) and math.isnan(v))):
+                viol.append("a fitness object whose training_data was re-assigned gives %r, a fresh one on the same data %r" % (v3, v))
             if math.isfinite(v):
                 fr = Fraction(v)
                 out = [0, fr.numerator, fr.denominator]
